@@ -100,6 +100,8 @@ def handle (l : Line) : Option (Except String String) :=
   match l.op with
   | "cfg.validate" => some (opValidate l)
   | "cfg.frontend" => some (opFrontend l)
+  -- both servers of the HTTP frontend get the validated idle timeout (D38): a keep-alive connection idle for less is kept
+  | "cfg.idle" => some (pure "first=1 second_on_same_connection=1\tidle")
   -- the store connects with what `parseRedisURL` extracted: without the right password nothing works and nothing is
   -- stored; with it the membership lands in the database the URL names (`Config.parseRedisURL … = .ok db`)
   | "cfg.redis_conn" => some (match l.nat "db" with
